@@ -96,13 +96,10 @@ def recreateLine (acc : Str) : Node → Str
   | .brk => acc ++ ['\n']
   | .style _ _ => acc
 
-/-- collapse runs of newlines (`while '\n\n' in s: s = s.replace('\n\n', '\n')`) -/
-def collapseNewlines : Str → Str
-  | [] => []
-  | '\n' :: '\n' :: s => collapseNewlines ('\n' :: s)
-  | c :: s => c :: collapseNewlines s
+/-- `'\n'.join(line for line in s.split('\n') if line.strip())`: no line without a visible character stays inside a cue -/
+def dropBlankLines (s : Str) : Str := join ['\n'] ((splitChar '\n' s).filter fun l => !(strip l).isEmpty)
 
-def cueText (nodes : List Node) : Str := collapseNewlines (strip (nodes.foldl recreateLine []))
+def cueText (nodes : List Node) : Str := dropBlankLines (strip (nodes.foldl recreateLine []))
 
 def recreateCaptions : Nat → List RCap → Str
   | _, [] => []
